@@ -95,9 +95,9 @@ PROPS = {
     },
     "C03": {
         "modules": ["SamlModel.Props.C03", "SamlModel.Props.Stateless"],
-        "translated": ["Attributes_GetSAML", "Attributes_GetNameID", "getResponseCert", "getIssuer", "makeResponse", "makeAssertion"],
+        "translated": ["Attributes_GetSAML", "Attributes_GetNameID", "getResponseCert", "getIssuer", "makeResponse", "makeAssertion", "Response_makeAssertionResponse", "Response_makeSuccessfulResponse", "Response_makeFailedResponse"],
         "trusted_base": COMMON_TRUST + CB_TRUST + [
-            "makeResponse / makeAssertion / getIssuer are translated (go2lean) and proved to refine the record builders of the callback model (C03_builders_refine); real functions vs generated definitions are compared on random arguments (`fn` ops, builders differential)",
+            "makeSuccessfulResponse / makeAssertionResponse / makeFailedResponse / makeResponse / makeAssertion / getIssuer are translated (go2lean) and proved to build exactly the messages of the callback model (C03_success_message_is_generated, C03_failed_message_is_generated, C03_builders_refine); time.Now / Format are oracles of the generated code (Ora.now, Ora.m_Format); real functions vs generated definitions are compared on random arguments (`fn` ops, builders differential)",
             "time.Now/Format are inputs of the model (issueInstant, untilInstant); C03_window is stated for any formatter/parser with the stated granularity law; the harness brackets IssueInstant with the wall clock",
             "uuid.New is assumed not to repeat (C03_ids takes injectivity of the ID source as hypothesis); the '_'+uuid shape is checked by the harness on every reply",
             "Go map iteration order of custom attributes is the order of the list in the model (universally quantified); the harness compares the custom part sorted",
